@@ -143,7 +143,7 @@ ADDENDA = {
             "between the same iteration boundaries); ambiguity of iteration boundaries is listed in the evidence but NOT judged (the matcher's repeat guards keep it linear on today's tree). "
             "Memoised scan-path functions take hashable arguments only. R6: no node-building function reachable from a decoder is cached (decorator or ALIAS = lru_cache(...)(f)): "
             "the drain loop's ranking argument needs hit.end <= len(data) for the hits of THIS call, and a cached node is shifted in place at every reuse."),
-    "C03": TRUTH, "C04": TRUTH, "C05": TRUTH, "C06": TRUTH, "C08": TRUTH,
+    "C03": TRUTH, "C04": TRUTH, "C05": TRUTH, "C06": TRUTH, "C08": TRUTH + " Delegated to C07: the depth handed to the rescan of a decoded hit is DEPTH - 1 as a linear form (no dependence on the open contexts).",
     "C09": " Set algebra on dict views (keys() - keys()) and set methods yield unordered collections; a keyed sort does not sanitise iteration order.",
     "C10": (" The percent-normalisation callback is interpreted (mdstatic/pureeval.py, nothing executed from the repository) for all 484 two-hex-digit escapes and compared with the "
             "documented table." + FRESH),
